@@ -68,6 +68,97 @@ def pred_base(v, fields):
     return bool(f) and f[-1] == fields[-1]
 
 
+def analyse_seg(prog, fn):
+    """verdicts for the unchecked bucket / entry accesses of one function of the segment tree:
+    [(call, key, verdict, message, props, line)]"""
+    out = []
+    b = fn.body
+    for c in b.calls:
+        tgt = prog.resolve(c)
+        if tgt is None or tgt.path not in prog.accessors or prog.accessors[tgt.path]['fn'].body.locals[2]['ty'] != 'usize':
+            continue
+        idx = strip(c.args[1])
+        fields = prog.accessors[tgt.path]['fields']
+        line = span_line(c, fn.line)
+        props = ['C10']
+        # (a) from the bit iterator
+        from_bits = any(x.kind == 'call' and x.callee_name() == 'next' and 'BitIter' in ((x.extra['callee'].get('resolved') or {}).get('path', '') + x.extra['callee'].get('self_ty', '') + ' '.join(x.extra['callee'].get('gargs') or [])) for x in walk(idx))
+        if from_bits:
+            out.append((c, 'seg-index(%s from mask bits)' % tgt.name, 'exception', 'bucket index is a bit of a layout mask; that every mask bit is below chunks.len() rests on SIZING (the list count covers the position of the domain maximum under the mask builders own mapping) and on layout arithmetic (monotone positions, C14 / C15: assumed)', props, line))
+            continue
+        def pred(lencall, fields=fields, c=c):
+            base = strip(lencall.args[0])
+            while base.kind == 'call' and base.callee_name() in ('deref', 'deref_mut'):
+                base = strip(base.args[0])
+            if base.kind not in ('ref', 'load'):
+                return False
+            f = base.fields()
+            return bool(f) and f[-1] == fields[-1]
+        lencall, sw = guard_lt(prog, b, idx, c, pred, lambda fname, fields=fields: fname == fields[-1])
+        if lencall is None:
+            # (c) the index is produced by iterating the range lo..len(vector): below len by construction, as long as
+            #     nothing shrinks the vector inside the loop
+            from rules.reset import iterator_source
+            rng_ok = False
+            if idx.kind == 'load' and tuple(idx.fields()) == ('as:Some', '0') and strip(idx.args[0]).kind == 'call' and strip(idx.args[0]).callee_name() == 'next':
+                nx = strip(idx.args[0])
+                src = iterator_source(b, nx.args[0]) if nx.args else None
+                if src is not None and src.kind == 'agg' and src.extra.get('path', '').endswith('Range') and len(src.args) == 2:
+                    hi = strip(src.args[1])
+                    if hi.kind == 'call' and hi.callee_name() == 'len' and pred(hi):
+                        loops = b.cfg.loops()
+                        inl = [body for h, body in loops.items() if nx.point[0] in body]
+                        body = min(inl, key=len) if inl else set()
+                        shrink = [m for m in b.calls if m.point[0] in body and m.callee_name() in ('swap_remove', 'remove', 'pop', 'truncate', 'clear', 'retain', 'drain', 'split_off') and m.args and pred_base(m.args[0], fields)]
+                        rng_ok = not shrink
+            if rng_ok:
+                out.append((c, 'seg-index(%s)' % tgt.name, 'ok', 'index iterates the range up to %s.len(), and the vector is not shrunk inside the loop' % '.'.join(fields), props, line))
+                continue
+            out.append((c, 'seg-index(%s)' % tgt.name, 'violation', '%s(%s) is not dominated by a bound check against %s.len()' % (tgt.name, show(idx, 3), '.'.join(fields)), props, line))
+            continue
+        # no mutation of that vector and no reassignment of the index between the check and the use
+        bad = None
+        for m in b.calls:
+            if m.callee_name() in ('swap_remove', 'remove', 'pop', 'truncate', 'clear', 'retain') and m.args:
+                mb = strip(m.args[0])
+                if mb.kind in ('ref', 'load') and mb.fields()[-1:] == (fields[-1],):
+                    if b.cfg.dominates(sw, m.point[0]) and m.point < c.point and m.point[0] in b.cfg.can_reach([c.point[0]]) and b.cfg.dominates(m.point[0], c.point[0]):
+                        bad = m
+        if idx.kind == 'load':
+            for st in b.stores:
+                if strip(st.root) is strip(idx.args[0]) and st.fields() == idx.fields() and b.cfg.dominates(sw, st.point[0]) and b.cfg.dominates(st.point[0], c.point[0]) and st.point < c.point:
+                    bad = st
+        # a length read before a loop that removes elements of that vector is stale inside the loop
+        loops = b.cfg.loops()
+        for m in b.calls:
+            if m.callee_name() in ('swap_remove', 'remove', 'pop', 'truncate', 'clear', 'retain') and m.args:
+                mb = strip(m.args[0])
+                if mb.kind in ('ref', 'load') and mb.fields()[-1:] == (fields[-1],):
+                    for h, body in loops.items():
+                        if m.point[0] in body and sw in body and lencall.point[0] not in body:
+                            bad = m
+        if bad is not None:
+            out.append((c, 'seg-index(%s)' % tgt.name, 'violation', 'the bound check is invalidated before the unchecked access (%s)' % (bad.callee_name() if hasattr(bad, 'callee_name') else 'index reassigned'), props, line))
+        else:
+            out.append((c, 'seg-index(%s)' % tgt.name, 'ok', 'index < %s.len() checked on every path, nothing invalidates it before the access' % '.'.join(fields), props, line))
+    return out
+
+
+def spliced_into(prog, caller, helper):
+    """caller with every call of the private helper spliced in"""
+    import copy, inline
+    from program import Fn
+    host = copy.deepcopy(caller.info['mir'])
+    n = 0
+    for c in caller.body.calls:
+        if prog.resolve(c) is helper:
+            t = host['blocks'][c.point[0]]['term']
+            if t['k'] == 'call':
+                inline.splice(host, c.point[0], helper.info['mir'], t['args'], t['dest'], t.get('target'), t['span'], helper.name)
+                n += 1
+    return Fn(prog, dict(caller.info, mir=host)) if n else None
+
+
 def run(ctx):
     prog = ctx.prog
     n_list = n_seg = 0
@@ -119,76 +210,26 @@ def run(ctx):
     for fn in prog.fns.values():
         if fn.family != 'seg' or fn.is_closure:
             continue
-        b = fn.body
-        for c in b.calls:
-            tgt = prog.resolve(c)
-            if tgt is None or tgt.path not in prog.accessors or prog.accessors[tgt.path]['fn'].body.locals[2]['ty'] != 'usize':
-                continue
+        for (c, key, verdict, msg, props, line) in analyse_seg(prog, fn):
             n_seg += 1
-            idx = strip(c.args[1])
-            fields = prog.accessors[tgt.path]['fields']
-            line = span_line(c, fn.line)
-            props = ['C10']
-            # (a) from the bit iterator
-            from_bits = any(x.kind == 'call' and x.callee_name() == 'next' and 'BitIter' in ((x.extra['callee'].get('resolved') or {}).get('path', '') + x.extra['callee'].get('self_ty', '') + ' '.join(x.extra['callee'].get('gargs') or [])) for x in walk(idx))
-            if from_bits:
-                ctx.add(RULE, fn, 'seg-index(%s from mask bits)' % tgt.name, 'exception', 'bucket index is a bit of a layout mask; that every mask bit is below chunks.len() rests on SIZING (the list count covers the position of the domain maximum under the mask builders own mapping) and on layout arithmetic (monotone positions, C14 / C15: assumed)', props, line)
-                continue
-            def pred(lencall, fields=fields, c=c):
-                base = strip(lencall.args[0])
-                while base.kind == 'call' and base.callee_name() in ('deref', 'deref_mut'):
-                    base = strip(base.args[0])
-                if base.kind not in ('ref', 'load'):
-                    return False
-                f = base.fields()
-                return bool(f) and f[-1] == fields[-1]
-            lencall, sw = guard_lt(prog, b, idx, c, pred, lambda fname, fields=fields: fname == fields[-1])
-            if lencall is None:
-                # (c) the index is produced by iterating the range lo..len(vector): below len by construction, as long as
-                #     nothing shrinks the vector inside the loop
-                from rules.reset import iterator_source
-                rng_ok = False
-                if idx.kind == 'load' and tuple(idx.fields()) == ('as:Some', '0') and strip(idx.args[0]).kind == 'call' and strip(idx.args[0]).callee_name() == 'next':
-                    nx = strip(idx.args[0])
-                    src = iterator_source(b, nx.args[0]) if nx.args else None
-                    if src is not None and src.kind == 'agg' and src.extra.get('path', '').endswith('Range') and len(src.args) == 2:
-                        hi = strip(src.args[1])
-                        if hi.kind == 'call' and hi.callee_name() == 'len' and pred(hi):
-                            loops = b.cfg.loops()
-                            inl = [body for h, body in loops.items() if nx.point[0] in body]
-                            body = min(inl, key=len) if inl else set()
-                            shrink = [m for m in b.calls if m.point[0] in body and m.callee_name() in ('swap_remove', 'remove', 'pop', 'truncate', 'clear', 'retain', 'drain', 'split_off') and m.args and pred_base(m.args[0], fields)]
-                            rng_ok = not shrink
-                if rng_ok:
-                    ctx.add(RULE, fn, 'seg-index(%s)' % tgt.name, 'ok', 'index iterates the range up to %s.len(), and the vector is not shrunk inside the loop' % '.'.join(fields), props, line)
-                    continue
-                ctx.add(RULE, fn, 'seg-index(%s)' % tgt.name, 'violation', '%s(%s) is not dominated by a bound check against %s.len()' % (tgt.name, show(idx, 3), '.'.join(fields)), props, line)
-                continue
-            # no mutation of that vector and no reassignment of the index between the check and the use
-            bad = None
-            for m in b.calls:
-                if m.callee_name() in ('swap_remove', 'remove', 'pop', 'truncate', 'clear', 'retain') and m.args:
-                    mb = strip(m.args[0])
-                    if mb.kind in ('ref', 'load') and mb.fields()[-1:] == (fields[-1],):
-                        if b.cfg.dominates(sw, m.point[0]) and m.point < c.point and m.point[0] in b.cfg.can_reach([c.point[0]]) and b.cfg.dominates(m.point[0], c.point[0]):
-                            bad = m
-            if idx.kind == 'load':
-                for st in b.stores:
-                    if strip(st.root) is strip(idx.args[0]) and st.fields() == idx.fields() and b.cfg.dominates(sw, st.point[0]) and b.cfg.dominates(st.point[0], c.point[0]) and st.point < c.point:
-                        bad = st
-            # a length read before a loop that removes elements of that vector is stale inside the loop
-            loops = b.cfg.loops()
-            for m in b.calls:
-                if m.callee_name() in ('swap_remove', 'remove', 'pop', 'truncate', 'clear', 'retain') and m.args:
-                    mb = strip(m.args[0])
-                    if mb.kind in ('ref', 'load') and mb.fields()[-1:] == (fields[-1],):
-                        for h, body in loops.items():
-                            if m.point[0] in body and sw in body and lencall.point[0] not in body:
-                                bad = m
-            if bad is not None:
-                ctx.add(RULE, fn, 'seg-index(%s)' % tgt.name, 'violation', 'the bound check is invalidated before the unchecked access (%s)' % (bad.callee_name() if hasattr(bad, 'callee_name') else 'index reassigned'), props, line)
-            else:
-                ctx.add(RULE, fn, 'seg-index(%s)' % tgt.name, 'ok', 'index < %s.len() checked on every path, nothing invalidates it before the access' % '.'.join(fields), props, line)
+            if verdict == 'violation' and 'not dominated by a bound check' in msg and not fn.trait_item and fn.vis != 'Public':
+                # a private helper: the check may be its callers' (a scan extracted from the loop that guards it);
+                # decided on every caller with the helper spliced in
+                import inline
+                callers = list({cf.path: cf for _, cf in prog.callers(fn) if cf is not fn}.values())
+                if callers and not inline.recursive(prog, fn):
+                    oks = 0
+                    for cf in callers:
+                        g = spliced_into(prog, cf, fn)
+                        if g is None:
+                            break
+                        before = sum(1 for r in analyse_seg(prog, cf))
+                        res = analyse_seg(prog, g)
+                        if len(res) > before - 1 and all(r[2] != 'violation' for r in res):
+                            oks += 1
+                    if oks == len(callers):
+                        verdict, msg = 'ok', 'the bound check against the vector\'s length is made by every caller of this private helper (%s), nothing invalidates it before the access' % ', '.join(sorted(cf.name for cf in callers))
+            ctx.add(RULE, fn, key, verdict, msg, props, line)
     ctx.stat(RULE, list_reads=n_list, seg_accesses=n_seg)
     if n_list < 10:
         ctx.anchor_missing(RULE, 'unchecked reads in the list modules', ['C10', 'C13'], n_list, 10)
